@@ -12,6 +12,7 @@
 #include <sys/epoll.h>
 #include <sys/timerfd.h>
 #include <sys/syscall.h>
+#include <regex.h>
 
 using namespace sim;
 
@@ -133,6 +134,17 @@ int sk_pthread_cond_destroy(pthread_cond_t *c) { return cond_destroy(c); }
 int sk_pthread_cond_wait(pthread_cond_t *c, pthread_mutex_t *m) { return cond_wait(c, m); }
 int sk_pthread_cond_signal(pthread_cond_t *c) { return cond_signal(c); }
 int sk_pthread_cond_broadcast(pthread_cond_t *c) { return cond_broadcast(c); }
+
+// ---- compiled regular expressions live in libc's heap, not behind the memhook: counted here so that conservation covers them
+int sk_regcomp(regex_t *re, const char *pattern, int cflags) {
+    int rc = regcomp(re, pattern, cflags);
+    if (rc == 0) R->regex_live++;
+    return rc;
+}
+void sk_regfree(regex_t *re) {
+    R->regex_live--;
+    regfree(re);
+}
 
 // ---- things that are out of scope: plugin loading always fails, logging is swallowed
 void *sk_dlopen(const char *name, int flags) { (void)name; (void)flags; return nullptr; }
